@@ -8,8 +8,11 @@
 pub mod alloc;
 pub mod c18;
 pub mod c19;
+pub mod c20;
 pub mod cmp;
 pub mod gen;
+pub mod guard;
 
 pub use c18::C18;
 pub use c19::C19;
+pub use c20::C20;
